@@ -367,6 +367,28 @@ fn sub_program(kind: usize, def: Option<Q>, a: usize, b: usize) -> Option<Expect
             let want = if assign { Err(rows0 + 6) } else { Ok(" 7 \r\n".to_string()) };
             Some(Expect { text, want, label: format!("global CONST, assignment in the SUB: {}", assign), sigkey: "CONST in SUB".into() })
         }
+        // a global that is not shared against a local declared AS type in the SUB: two variables
+        5 => {
+            let s = *SPELLINGS.get(a)?;
+            let t = *QS.get(b)?;
+            let q = res(s);
+            let text = format!(
+                "{}DECLARE SUB P ()\n{} = {}\nP\nPRINT {}\nSUB P\nDIM {} AS {}\n{} = {}\nPRINT {}\nEND SUB\n",
+                head, spell(base, s, 0), lit(q, 5).0, spell(base, s, 1), base, t.type_name(), base.to_ascii_lowercase(), lit(t, 9).0, base.to_ascii_uppercase()
+            );
+            Some(Expect { text, want: Ok(format!("{}\r\n{}\r\n", lit(t, 9).1, lit(q, 5).1)), label: format!("global {:?} not shared, local DIM AS {:?} in the SUB, default {:?}", s, t, def), sigkey: "extended local against an unshared global".into() })
+        }
+        // the same with a parameter declared AS type (given a value)
+        6 => {
+            let s = *SPELLINGS.get(a)?;
+            let t = *QS.get(b)?;
+            let q = res(s);
+            let text = format!(
+                "{}DECLARE SUB P ({} AS {})\n{} = {}\nP ({})\nPRINT {}\nSUB P ({} AS {})\nPRINT {}\nEND SUB\n",
+                head, base, t.type_name(), spell(base, s, 0), lit(q, 5).0, lit(t, 9).0, spell(base, s, 1), base, t.type_name(), base.to_ascii_lowercase()
+            );
+            Some(Expect { text, want: Ok(format!("{}\r\n{}\r\n", lit(t, 9).1, lit(q, 5).1)), label: format!("global {:?} not shared, parameter AS {:?}, default {:?}", s, t, def), sigkey: "extended parameter against an unshared global".into() })
+        }
         // a parameter: the spelling denotes the caller's variable; another spelling is a separate local
         _ => {
             let s = *SPELLINGS.get(a)?;
@@ -582,7 +604,7 @@ pub fn worker(case: &Value) -> Value {
                 let a = (idx / 6) % 6;
                 let df = (idx / 36) % 6;
                 let kind = idx / 216;
-                if kind > 4 {
+                if kind > 6 || (g == "fn" && kind > 4) {
                     continue;
                 }
                 let e = if g == "fn" { fn_program(kind, DEFS[df], a, b) } else { sub_program(kind, DEFS[df], a, b) };
@@ -611,7 +633,7 @@ pub fn drive(tier: &str) -> i32 {
     let totals = [
         ("deftype", def_configs(quick).len()),
         ("global", DEFS.len() * decls().len() * use_sequences(if quick { 2 } else { 3 }).len()),
-        ("sub", 5 * 216),
+        ("sub", 7 * 216),
         ("fn", 5 * 216),
     ];
     for (g, t) in totals {
@@ -632,7 +654,7 @@ pub fn drive(tier: &str) -> i32 {
         run.capped = true;
     }
     let mut ev = Evidence::new("exploration");
-    ev.set("rule", "deftype: every DEFINT / DEFLNG / DEFSNG / DEFDBL / DEFSTR statement over every single letter and every range with ends in {A, B, M, Y, Z} (thorough: all 325 ranges), lower / mixed case of keyword and range ends, two ranges in one statement and a later statement overriding an earlier one; each program assigns the five suffixed variables of a name starting with each of the 26 letters and prints the bare name (in another letter case): the model's 26-entry default table predicts which one it is. global: default type of the first letter (none or one of 5 DEFtype statements) x declaration (none, DIM name AS each of 5 types, DIM with each of the 6 spellings) x every sequence of 1..2 (thorough 3) assignments through the 6 spellings (bare and five suffixes) in rotating letter case: the model predicts the first spelling the checker must reject (after DIM AS type only the bare name and the matching suffix are legal) or, if none, the value each spelling prints. sub: an unshared global against a local of the same spelling; DIM SHARED with each spelling while another spelling is used first in the SUB; DIM SHARED AS type against each spelling; a global CONST read and assigned in a SUB; a parameter in each spelling with another spelling used first — each under every default type. fn: a FUNCTION declared with each spelling and called with each spelling (the same function iff the types agree), its result assigned twice through each spelling of the same type (the last value counts) and through every other spelling (not decided by the rules: any BASIC-level outcome, no internal failure), a parameter in each spelling given a variable of each type by reference, a parameter declared AS each type used through each spelling inside — each under every default type.");
+    ev.set("rule", "deftype: every DEFINT / DEFLNG / DEFSNG / DEFDBL / DEFSTR statement over every single letter and every range with ends in {A, B, M, Y, Z} (thorough: all 325 ranges), lower / mixed case of keyword and range ends, two ranges in one statement and a later statement overriding an earlier one; each program assigns the five suffixed variables of a name starting with each of the 26 letters and prints the bare name (in another letter case): the model's 26-entry default table predicts which one it is. global: default type of the first letter (none or one of 5 DEFtype statements) x declaration (none, DIM name AS each of 5 types, DIM with each of the 6 spellings) x every sequence of 1..2 (thorough 3) assignments through the 6 spellings (bare and five suffixes) in rotating letter case: the model predicts the first spelling the checker must reject (after DIM AS type only the bare name and the matching suffix are legal) or, if none, the value each spelling prints. sub: an unshared global against a local of the same spelling, against a local declared AS each type and against a parameter declared AS each type; DIM SHARED with each spelling while another spelling is used first in the SUB; DIM SHARED AS type against each spelling; a global CONST read and assigned in a SUB; a parameter in each spelling with another spelling used first — each under every default type. fn: a FUNCTION declared with each spelling and called with each spelling (the same function iff the types agree), its result assigned twice through each spelling of the same type (the last value counts) and through every other spelling (not decided by the rules: any BASIC-level outcome, no internal failure), a parameter in each spelling given a variable of each type by reference, a parameter declared AS each type used through each spelling inside — each under every default type.");
     ev.set("exhaustive", !run.capped);
     ev.set("plan", json!(plan));
     ev.set("distinct_nontrivial", run.nontrivial);
